@@ -374,6 +374,18 @@ def run_check(prop, pid, tier, seed):
                         detail={"model_observations(tag,bits...)": model,
                                 "meaning": "the theorems of Properties/%s.v are about a model the code no longer matches" % pid,
                                 "all_mismatching_cases": [x.cid for x in t1_bad[:50]]}))
+            # --- static tie: the model's state records mirror the structs of the implementation field by field, nothing is hidden
+            # from the serialized form, no state lives outside the structs (lib/structtie.py)
+            import structtie
+            from common import REPO as _REPO, COQ as _COQ
+            tie = structtie.check(_REPO, _COQ)
+            ctx.stats["struct_tie_mismatches"] = len(tie)
+            if tie:
+                violations.append(Violation(
+                    "correspondence (static): the state records of the model no longer mirror the structs of the implementation: " + "; ".join(tie[:6]),
+                    kind="correspondence",
+                    detail={"mismatches": tie, "meaning": "the theorems of Properties/%s.v are about a model whose state space is not that of the code "
+                                                          "(state outside the modelled / serialized fields is invisible to the dynamic tie)" % pid}))
         except BuildError as e:
             violations.append(Violation("check infrastructure failure: " + str(e)[-1500:], kind="build"))
         except Exception as e:  # noqa
